@@ -1,6 +1,8 @@
 import Mathlib.Tactic.Ring
 import CobyqaVerif.Model.Radius
 import CobyqaVerif.Props.C19
+import Mathlib.Tactic.Positivity
+import Mathlib.Algebra.Order.Field.Basic
 
 /-!
 # C18 — trust-region radius, resolution, penalty and centre stay coherent
@@ -231,7 +233,89 @@ theorem penalty_nonneg (pit pif p thr low : Rat) (hp : 0 ≤ p) (hl : 0 ≤ low)
   · exact increasePenalty_nonneg pit pif p thr hp
   · unfold decreasePenalty; rw [min2_spec]; exact le_min hp hl
 
+/-! ## penalty: the threshold and the low value as the code computes them -/
+
+theorem absP_spec (a : Rat) : absP a = |a| := by
+  unfold absP
+  simp only [rat_lt, decide_eq_true_eq]
+  split
+  · next h => show (0 : Rat) - a = _; rw [abs_of_neg (by exact_mod_cast h)]; ring
+  · next h => rw [abs_of_nonneg (by exact_mod_cast not_lt.mp h)]
+
+/-- the threshold is never below the norm of the multipliers, so it is non-negative — the hypothesis `0 ≤ thr` of
+`increasePenalty_ge` always holds in the code — and the quotient it may contain is bounded by `1 / TINY`: -/
+theorem penaltyThreshold_bounds (tiny lmNorm sqpVal violDiff : Rat) (ht : 0 < tiny) (hn : 0 ≤ lmNorm) :
+    lmNorm ≤ penaltyThreshold tiny lmNorm sqpVal violDiff ∧ 0 ≤ penaltyThreshold tiny lmNorm sqpVal violDiff ∧
+    penaltyThreshold tiny lmNorm sqpVal violDiff ≤ max lmNorm (1 / tiny) := by
+  unfold penaltyThreshold
+  simp only [rat_gt, rat_mul, absP_spec, decide_eq_true_eq, max2_spec]
+  split
+  · next h =>
+    refine ⟨le_max_left _ _, le_trans hn (le_max_left _ _), max_le (le_max_left _ _) ?_⟩
+    refine le_trans ?_ (le_max_right _ _)
+    have hv : 0 < |violDiff| := lt_of_le_of_lt (by positivity) h
+    have h1 : sqpVal / violDiff ≤ |sqpVal| / |violDiff| := by
+      rw [← abs_div]; exact le_abs_self _
+    refine le_trans h1 ?_
+    rw [div_le_div_iff₀ hv ht]
+    nlinarith [abs_nonneg sqpVal]
+  · exact ⟨le_refl _, hn, le_max_left _ _⟩
+
+/-- the new penalty of `increase_penalty` is bounded by quantities that are finite whenever the multipliers are:
+it cannot blow up through the quotient of model values -/
+theorem increasePenalty_bounded (pit pif tiny p lmNorm sqpVal violDiff : Rat) (ht : 0 < tiny) (hn : 0 ≤ lmNorm)
+    (hpif : 0 ≤ pif) :
+    increasePenalty pit pif p (penaltyThreshold tiny lmNorm sqpVal violDiff) ≤
+      max p (max (pif * max lmNorm (1 / tiny)) 1) := by
+  obtain ⟨_, _, h3⟩ := penaltyThreshold_bounds tiny lmNorm sqpVal violDiff ht hn
+  unfold increasePenalty
+  simp only [rat_le, rat_mul, decide_eq_true_eq, max2_spec]
+  split
+  · refine le_trans ?_ (le_max_right _ _)
+    exact max_le_max (mul_le_mul_of_nonneg_left h3 hpif) (le_refl _)
+  · exact le_max_left _ _
+
+/-- the value of `_get_low_penalty` is non-negative (the hypothesis `0 ≤ low` of `penalty_nonneg`), given only that
+the extreme objective values are ordered -/
+theorem lowPenalty_nonneg (tiny fmin fmax cdiff l : Rat) (ht : 0 ≤ tiny) (hf : fmin ≤ fmax)
+    (h : lowPenalty tiny fmin fmax cdiff = some l) : 0 ≤ l := by
+  unfold lowPenalty at h
+  have rs : ∀ a b : Rat, Arith.sub a b = a - b := fun _ _ => rfl
+  simp only [rat_gt, rat_mul, rs, decide_eq_true_eq] at h
+  split at h
+  · next hc =>
+    have hd : 0 ≤ fmax - fmin := sub_nonneg.mpr hf
+    have hc0 : 0 < cdiff := lt_of_le_of_lt (mul_nonneg ht hd) hc
+    injection h with h
+    rw [← h]
+    exact div_nonneg hd (le_of_lt hc0)
+  · exact absurd h (by simp)
+
+/-- **C18, penalty.**  Along `increase_penalty` and `decrease_penalty` with the threshold and the low value computed
+as in the code, a non-negative penalty stays non-negative, `increase_penalty` never lowers it
+(`penalty_increase_threshold ≤ penalty_increase_factor`), and `decrease_penalty` never raises it. -/
+theorem penalty_coherent (pit pif tiny p lmNorm sqpVal violDiff fmin fmax cdiff : Rat) (ht : 0 < tiny)
+    (hn : 0 ≤ lmNorm) (hpf : pit ≤ pif) (hp : 0 ≤ p) (hf : fmin ≤ fmax) :
+    let pInc := increasePenalty pit pif p (penaltyThreshold tiny lmNorm sqpVal violDiff)
+    let pDec := decreasePenaltyO p (lowPenalty tiny fmin fmax cdiff)
+    p ≤ pInc ∧ 0 ≤ pDec ∧ pDec ≤ p := by
+  obtain ⟨_, h2, _⟩ := penaltyThreshold_bounds tiny lmNorm sqpVal violDiff ht hn
+  refine ⟨increasePenalty_ge pit pif p _ hpf h2, ?_, ?_⟩
+  · unfold decreasePenaltyO
+    split
+    · next l hl => rw [min2_spec]; exact le_min hp (lowPenalty_nonneg tiny fmin fmax cdiff l (le_of_lt ht) hf hl)
+    · exact hp
+  · unfold decreasePenaltyO
+    split
+    · rw [min2_spec]; exact min_le_left _ _
+    · exact le_refl _
+
+/-- non-vacuity: a quotient that raises the threshold above the norm of the multipliers, and a finite low penalty -/
+example : penaltyThreshold (1/1000 : Rat) 1 6 2 = 3 ∧ lowPenalty (1/1000 : Rat) 1 5 2 = some 2 ∧
+    increasePenalty (3/2 : Rat) 2 1 3 = 6 ∧ decreasePenaltyO (6 : Rat) (some 2) = 2 := by decide +kernel
+
 /-! ## centre of the trust region: the scan of `set_best_index` -/
+
 
 /-- every merit value in `ms` is at least the current best one, up to the tolerances the switches in favour of a
 smaller violation have used; each of them was the tolerance of the merit that was best at that moment (`T` bounds them) -/
